@@ -25,11 +25,11 @@ Reasons(c, rs) ==
 PlanRec(g, c) == [gen |-> g, c |-> c, accept |-> Accept(c, Schedule[g]),
                   reasons |-> Cardinality(Reasons(c, Schedule[g]))]
 
-ExportPlan ==
-    PlanOut = "" \/ LET cs == SetToSeq(Cases)
-                        n == Len(cs) IN
-                    ndJsonSerialize(PlanOut, [k \in 1..(n * Len(Schedule)) |->
-                        PlanRec(((k - 1) \div n) + 1, cs[((k - 1) % n) + 1])])
+CaseSeq == SetToSeq(Cases)
+NCases == Len(CaseSeq)
+PlanSeq == [k \in 1..(NCases * Len(Schedule)) |->
+               PlanRec(((k - 1) \div NCases) + 1, CaseSeq[((k - 1) % NCases) + 1])]
+ExportPlan == PlanOut = "" \/ ndJsonSerialize(PlanOut, PlanSeq)
 
 MCInit == ExportPlan /\ Init
 MCSpec == MCInit /\ [][Next]_vars
